@@ -13,9 +13,9 @@ pub const KEYWORDS: [&str; 41] = [
 /// cannot be used as a type reference (DESIGN §5 item 5)
 pub const BARE_TYPE_KW: [&str; 19] = PRIMS;
 
-const COMMON: [&str; 24] = [
+const COMMON: [&str; 25] = [
     "a", "b", "x", "y", "foo", "bar", "Foo", "Bar", "Baz", "my_field", "MyStruct", "FOO_BAR", "x1", "_",
-    "_x", "T", "U", "v2", "data", "id", "name", "Self", "self", "match",
+    "_x", "T", "U", "v2", "data", "id", "name", "Self", "self", "match", "__",
 ];
 const KWISH: [&str; 14] = [
     "structure", "enumerate", "values", "u8x", "stringly", "optional", "boxed", "required_x",
